@@ -65,10 +65,46 @@ def units(tier):
     U("match_dimension", "h_match_dimension", [N("match_dimension")], fns=[ALIASES["match_dimension"]], clause="match_dimension raises invalid_argument exactly on mismatched lengths (strict / masked rules)")
     for k, what in (("rda_ctor", "ReadOnlyDirectAccess"), ("wda_ctor", "WritableDirectAccess"), ("rma_ctor", "ReadOnlyMaskedAccess"), ("wma_ctor", "WritableMaskedAccess")):
         U(k, "h_" + k, [N(k)], fns=[ALIASES[k]], clause="%s constructor: refused exactly when the array's masked / writable state does not allow it" % what)
+    us.extend(slice_units(tier))
     U("lemma.readonly", "h_lemma_readonly", replace=[N("wda_ctor"), N("wma_ctor"), N("index"), N("direct_index")],
       fns=[ALIASES[k] for k in ("wda_ctor", "wma_ctor", "index", "direct_index")],
       clause="lemma from the contracts: no writable accessor or element reference can be obtained from a read-only array")
     return us
+
+
+SDRIVER = '''#include "PyImathFixedArray.h"
+using namespace PyImath;
+void use19s (FixedArray<int> &a, PyObject *o, const int &v) { FixedArray<int> f = a.getslice (o); a.setitem_scalar (o, v); }
+'''
+SALIASES = {"getslice": F + "::getslice(::PyObject *) const", "setitem_scalar": F + "::setitem_scalar(PyObject *, const int &)",
+            "extract_slice_indices": F + "::extract_slice_indices(PyObject *, size_t &, size_t &, Py_ssize_t &, size_t &) const"}
+
+
+def slice_units(tier):
+    ef = dict(EXTERN)
+    ef.update({"Py_IS_TYPE": "cxx2c_Py_IS_TYPE", "Py_TYPE": "cxx2c_Py_TYPE", "PyType_HasFeature": "cxx2c_PyType_HasFeature", "PyLong_AsSsize_t": "cxx2c_PyLong_AsSsize_t",
+               "PySlice_Unpack": "cxx2c_PySlice_Unpack", "PySlice_AdjustIndices": "cxx2c_PySlice_AdjustIndices"})
+    exts = dict(EXTS)
+    exts["PySlice_Type"] = "CXX2C_PySlice_Type"
+    op = dict(OPAQUE)
+    op.update({"_object": "void", "PyObject": "void", "::PyObject": "void", "_typeobject": "void", "PyTypeObject": "void"})
+    ex = extract.run_extraction("c19sx", SDRIVER, sorted(set(SALIASES.values())), outdir=GEN, extra_includes=[os.path.join(REPO, "src/python/PyImath"), "/usr/include/python3.11"],
+                                opaque=op, extern_funcs=ef, externals=exts, diff=False, extern_patterns=[(r"^FixedArray<int>::FixedArray\((long|Py_ssize_t)\)$", "cxx2c_fa_ctor_len")])
+    txt = "\n".join("#define F_%s %s" % (a, ex.names[s]) for a, s in SALIASES.items()) + "\n"
+    p = os.path.join(GEN, "c19s_names.h")
+    if not os.path.exists(p) or open(p).read() != txt:
+        open(p, "w").write(txt)
+    EXTRACTION["c19sx"] = {"functions": len(ex.order), "differential": "not run (libpython / boost.python)"}
+    HS = os.path.join(VERIF, "harness", "c19_slice.c")
+    B = "array length <= 6 (harness buffers), stride 1 or 2; element loops unwound completely for that size"
+    asm = ["assumed CPython interface: PySlice_Check / PyLong_Check as ghost flags, PySlice_Unpack yields arbitrary (start, stop, step != 0) or fails, PySlice_AdjustIndices = CPython 3.11 reference code, "
+           "PyLong_AsSsize_t arbitrary; FixedArray(length) modelled as a fresh zero-filled writable unmasked array"]
+    return [Unit("c19.slice." + n, HS, "h_" + n, includes=[GEN], backend=os.environ.get("C19_BE", "kissat"), mode="BIT", functions=[SALIASES[n], SALIASES["extract_slice_indices"]], clause=c, no_checks=True,
+                 timeout=900, bounded=B, cbmc_flags=["--unwind", "14", "--no-signed-overflow-check", "--object-bits", "10"], assumptions=asm,
+                 replay={"src": os.path.join(VERIF, "harness", "c19_slice_replay.cpp"), "lang": "c++", "libs": ["-lboost_python311", "-lpython3.11"],
+                         "includes": [os.path.join(REPO, "src/python/PyImath"), "/usr/include/python3.11"], "flags": ['-DVF_WHICH="%s"' % n]})
+            for n, c in (("getslice", "getslice(slice or int) on plain and masked arrays: raises exactly on a bad index; otherwise a fresh array whose k-th element is element start + k*step of the array (through the mask); source unchanged"),
+                         ("setitem_scalar", "setitem_scalar(slice or int, value): raises exactly for read-only arrays or a bad index; stores the value at exactly the selected positions (through the mask)"))]
 
 
 def extra_coverage(units, tier):
@@ -76,7 +112,7 @@ def extra_coverage(units, tier):
 
 
 NOT_COVERED = [
-    "getslice / setitem_* / extract_slice_indices / masked-reference constructors / ifelse (need PySlice_* and allocation models): not under contract in this revision",
+    "setitem_vector / setitem_*_mask / getslice_mask / masked-reference constructors / ifelse: not under contract (getslice and setitem_scalar are, bounded)",
     "FixedArray2D, FixedMatrix, FixedVArray, StringArray/StringTable, buffer protocol",
     "view lifetimes under any release order (boost.python call policies, reference counts: dropped by the extraction)",
     "everything observable only at the Python level; the PyImath sources are not built by the pinned suite, so no native replay links against them",
